@@ -239,7 +239,7 @@ VP_HARNESS(h_unop)
   VP_CHECK(!R.inf, "from_ith_ulong: finite");
   VP_WITNESS_IF(k == ALLOC - 1 && A.inf, "from_ith_ulong at the last preallocated word");
 #elif UOP == 9
-  unsigned long masks[4]; unsigned nr = (unsigned) vp_in_range(1, 4);
+  unsigned long masks[4]; unsigned nr = (unsigned) vp_in_range(0, 4);      /* 0 words: the empty set */
   for (unsigned i = 0; i < 4; i++) masks[i] = vp_in64();
   VP_CHECK(hwloc_bitmap_from_ulongs(r, nr, masks) == 0, "from_ulongs returns 0");
   check_repr(r); abs_of(r, &R);
